@@ -18,7 +18,7 @@ CHECKS = {
    note="Trusts the reference walker/demuxer in vsim/ref (written from ISO/IEC 14496-12, no mp4ff code) and the Go runtime; corpus files plus byte-surgery layout variants are the only file shapes; only contract-legal reader/writer behaviour is injected.",
    technique="deterministic simulation: SimDisk delivery/fault schedules + op histories vs ground-truth bytes, seeded, replayable, minimised"),
 }
-SETUP_TARGETS = "vsim race crop"
+SETUP_TARGETS = "vsim race crop segmenter resegmenter combine"
 CHECKS["C02"] = dict(level="fault_enumeration", ref="6/C02",
    text="For each sampled node the write-failure points of Encode are enumerated completely (every write op k, every write boundary -1/0/+1 as device-full budget, every slice-writer shortfall d in 1..64) against the first clean encoding as model; histories of Size/Info/Encode/EncodeSW are seeded. Nodes and histories are sampled; fault points per node are enumerated.",
    note="Objects are nodes of decoded corpus files and packager-built productions only; EncodeSW success = nil error and nil accumulated error; objects with separately written (lazy) mdat payload excluded by the library's documented design; reference size walker vsim/ref trusted.",
@@ -55,6 +55,10 @@ CHECKS["C10"] = dict(level="exploration", ref="6/C10",
    text="The tool's inner function cropMP4 runs inside an in-package harness with both of its seams simulated: lazy input on a SimDisk (delivery schedules, EIO, seek errors, truncation) and a faulty output sink; inputs are corpus files, layout variants and raw-muxer files; whenever it returns nil the output is compared, by an independent demuxer, with the prefix the statement defines (exact integer arithmetic).",
    note="Conditional on success (errors and panics impose nothing); no claim when no sync sample starts at or after the requested duration; run()/flags/os files are real and un-faulted (one smoke run); raw muxer and reference demuxer are ours, written from ISO/IEC 14496-12.",
    technique="deterministic simulation: tool function between a simulated lazy disk and a faulty sink; prefix oracle from an independent sample-table expansion")
+CHECKS["C11"] = dict(level="exploration", ref="6/C11",
+   text="Three simulated worlds, one per tool binary: (segmenter) the example's own functions fed from a SimDisk (eager/lazy decode, delivery schedules, EIO/seek errors/truncation on the lazy source) over corpus and raw-muxer inputs and seeded segment durations in single-track, multiplexed and lazy-write modes; (resegmenter + Fragmentify) seeded chunk/fragment durations over packager streams and corpus; (combine-segs) 2-3 single-track productions combined; per-track sample conservation is decided by an independent demuxer.",
+   note="Tool stages are checked one at a time (each tool is its own package main, so they cannot be chained inside one process); stages without an I/O seam (Resegment, Fragmentify, combine*) have no fault dimension; output and combine-segs input files are real scratch files; tool error/panic => no claim.",
+   technique="deterministic simulation: tool functions behind a simulated lazy disk + seeded producer histories; per-track conservation/order vs independent demuxer")
 PENDING = {k: "claimed in DESIGN.md but its check is not built yet in this revision (work in progress; will move to checks)" for k in ["C02","C03","C04","C05","C06","C10","C11","C12","C19","C20"] if k not in CHECKS}
 def main():
     checks = []
